@@ -21,6 +21,7 @@ func TestMain(m *testing.M) {
 		os.Exit(childMain())
 	}
 	kvh.Install(gIO)
+	kvh.StartMemoryWatchdog()
 	code := m.Run()
 	os.Exit(code)
 }
@@ -136,6 +137,8 @@ func runHistoryCase(t *rapid.T, property string, prof *kvh.GenProfile, nonTrivia
 	if setup := historySetups[property]; setup != nil {
 		setup(r)
 	}
+	kvh.SetInFlight(&kvh.InFlight{Property: property, Case: func() any { return r.AsCase(property, "history", first) }})
+	defer kvh.SetInFlight(nil)
 	t.Repeat(map[string]func(*rapid.T){
 		"op": func(t *rapid.T) {
 			op := kvh.GenOp(t, r, pool, prof)
